@@ -88,7 +88,7 @@ def check_case(case):
 
 OPS = ['delete', 'duplicate', 'swap', 'move', 'truncate', 'retag', 'orphan-trailer', 'dup-trailer', 'bad-count', 'empty-segment',
        'blank-segment', 'sep-only-segment', 'no-elements', 'extra-elements', 'extra-components', 'long-segment', 'second-isa',
-       'unknown-gs08', 'bad-isa12', 'leading-blank', 'trailing-seps', 'bad-bht02', 'bad-hl', 'lowercase-id', 'isa-15-elements', 'delete-header', 'garble-element', 'garble-element', 'bad-lx']
+       'unknown-gs08', 'bad-isa12', 'leading-blank', 'trailing-seps', 'bad-bht02', 'bad-hl', 'lowercase-id', 'isa-15-elements', 'delete-header', 'garble-element', 'garble-element', 'bad-lx', 'empty-first-component', 'empty-first-component']
 
 
 def mutate(text, ch, nops):
@@ -160,9 +160,9 @@ def mutate(text, ch, nops):
             if k:
                 p = segs[k[0]].split(ele)
                 if len(p) > 8:
-                    p[8] = ch.choice(['004010X999', '', '005010', 'X', '004010X098'])
-                    if ch.chance(.3) and len(p) > 1:
-                        p[1] = 'ZZ'
+                    p[8] = ch.choice(['004010X999', '', '', '005010', 'X', '004010X098'])
+                    if ch.chance(.4) and len(p) > 1:
+                        p[1] = ch.choice(['ZZ', '', ''])
                     segs[k[0]] = ele.join(p)
         elif op == 'bad-isa12':
             p = segs[0].split(ele)
@@ -191,6 +191,16 @@ def mutate(text, ch, nops):
                 j = ch.integer(1, len(p) - 1)
                 p[j] = ch.choice(['A', '', '1.0', '-', 'X' * 100, 'A\x07', ' ', '0', '-1', '99999999', 'é', sub, sub + 'A', 'A' + sub, '20041301', '2560'])
                 segs[i] = ele.join(p)
+        elif op == 'empty-first-component':
+            # a composite that keeps its later components but loses the first one (often the qualifier)
+            k = [(j, q) for j, sg in enumerate(segs) if j > 0 for q, e_ in enumerate(sg.split(ele)) if q > 0 and sub in e_ and not sg.startswith('ISA')]
+            if k:
+                j, q = k[ch.integer(0, len(k) - 1)]
+                p = segs[j].split(ele)
+                comps = p[q].split(sub)
+                comps[0] = ''
+                p[q] = sub.join(comps)
+                segs[j] = ele.join(p)
         elif op == 'bad-lx':
             k = [j for j, s in enumerate(segs) if s.startswith('LX')]
             if k:
@@ -213,7 +223,7 @@ def mutate(text, ch, nops):
 
 
 def arbitrary_text(ch):
-    kind = ch.choice(['empty', 'short', 'isa-prefix', 'isa-badver', 'garbage', 'isa-only', 'isa-then-junk', 'unicode'])
+    kind = ch.choice(['empty', 'short', 'isa-prefix', 'isa-badver', 'garbage', 'isa-only', 'isa-then-junk', 'unicode', 'odd-delims', 'odd-delims'])
     isa = x12ref.make_isa()
     if kind == 'empty':
         return ''
@@ -226,6 +236,15 @@ def arbitrary_text(ch):
     if kind == 'garbage':
         r = __import__('random').Random(ch.seed())
         return ''.join(chr(r.randint(0, 255)) for _ in range(ch.integer(0, 400)))
+    if kind == 'odd-delims':
+        # letters, digits or blanks as delimiters: a 106-character header that starts with ISA all the same
+        e_, s_, t_ = ch.choice(['A', 'S', '0', ' ', 'Z', '*']), ch.choice(['1', 'P', ':', ' ', 'U']), ch.choice(['~', 'E', '0', '\n', ' '])
+        try:
+            hdr = x12ref.make_isa(ele=e_, sub=s_, term=t_)
+        except AssertionError:
+            hdr = isa
+        body = 'GS*HC*A*B*20040101*1230*1*X*004010X098A1~ST*837*0001~BHT*0019*00*1*20040101*1230*CH~SE*3*0001~GE*1*1~IEA*1*000000001~'
+        return hdr + body.replace('*', e_).replace(':', s_).replace('~', t_)
     if kind == 'isa-only':
         return isa
     if kind == 'unicode':
